@@ -41,11 +41,8 @@ pub fn decode_accepts(p: &[u8]) -> bool {
     f == 0 || ctrl_data_len(p) == f as isize
 }
 pub fn payload_start(p: &[u8]) -> usize { if p[8] & 0x7f == 0 { if p[9] & 0x80 != 0 { 11 } else { 12 } } else { 9 } }
-/// recorded finding D9c (decoder panic class): a control response whose completion code is above 0x05
-/// (D9a/D9b - the length tables - and D10a-c - the processor - are fixed: no other input is excluded)
-pub fn decode_known_panic(p: &[u8]) -> bool {
-    hdr_ok(p) && p[8] & 0x7f == 0 && p.len() >= 13 && p[9] & 0x80 == 0 && p[11] > 5
-}
+/// no decoder panic class is recorded any more (D9a-c fixed)
+pub fn decode_known_panic(_p: &[u8]) -> bool { false }
 /// no processor panic class is recorded any more (D10a-c fixed)
 pub fn process_known_panic(_p: &[u8], _n_vendor: usize) -> bool { false }
 /// the commands this endpoint answers; every other accepted control request is handed to the caller without a response
